@@ -62,7 +62,7 @@ def main():
         ],
         "checks": checks,
         "not_applicable": na,
-        "notes": "Exit codes: 0 decided/holds, 1 violation (VIOLATION line), 2 undecided (lost anchor / below floor; never a VIOLATION line). Known findings: known_findings.json (exact keys).",
+        "notes": "Exit codes: 0 decided/holds, 1 violation (VIOLATION line), 2 undecided (lost anchor / below floor / an obligation at a site that is not on the pinned tree -- engine/rules/baseline_obligations.json -- or of a construction a rule cannot read, neither established nor refuted; never a VIOLATION line). A failed obligation is a violation when it regresses something discharged on the pinned tree or is a positively identified bad construct. Known findings: known_findings.json (exact keys).",
     }
     with open(os.path.join(VERIF, "MANIFEST.json"), "w") as f:
         json.dump(man, f, indent=1)
